@@ -6,7 +6,6 @@ import (
 	"go/token"
 	"go/types"
 	"strings"
-
 )
 
 func init() { register("C07", checkC07) }
